@@ -13,7 +13,7 @@ func init() {
 	register(&PropDef{
 		ID:          "C09",
 		Level:       "proof",
-		Explanation: "Proof of the store's write protocol on the CFG of the publishing function, for all paths: the published file only ever changes by os.Rename of a file that os.CreateTemp created in the same call and in the same directory, after Encode of the data parameter on that file returned nil; success is returned only after the rename succeeded; nothing else in the module creates, truncates, appends to or removes the published path; Load opens exactly that path, decodes with the same codec and maps not-exist to the empty state.",
+		Explanation: "Proof of the store's write protocol on the CFG of the publishing function, for all paths: the published file only ever changes by os.Rename of a file that os.CreateTemp created in the same call and in the same directory, after Encode of the data parameter on that file returned nil; success is returned only after the rename succeeded; nothing else in the module creates, truncates, appends to or removes the published path; Load opens exactly that path, decodes with the same codec and maps not-exist to the empty state. and returns (decoded data, nil) exactly behind the err == nil edge of Decode — on every other path except the missing file the error is non-nil (a wrapped error is nil exactly when its cause is).",
 		Trusted: []string{
 			"POSIX rename(2) atomically replaces the destination within one directory",
 			"os.CreateTemp returns a fresh, unique file",
@@ -450,13 +450,62 @@ func checkC09(w *World, r *Report) {
 				}
 			}
 		}
+		// decode result: (data, nil) exactly behind the err == nil edge of Decode; a nil error otherwise only
+		// for the missing file
+		okDec, nDec, decDetail := true, 0, ""
+		for _, p := range res.Paths {
+			if p.End != "return" || len(p.Ret) != 2 {
+				continue
+			}
+			dec, decArgs := "", ""
+			for _, e := range p.Effects {
+				if e.Kind == "call" && (strings.HasSuffix(e.Target, ".Decode") || strings.HasSuffix(e.Target, ".Unmarshal")) {
+					dec, decArgs = e.Target+"("+e.Val+")", e.Val
+				}
+			}
+			decoded, notExist := false, false
+			for _, l := range p.Lits {
+				if dec != "" && l.Atom.Op == "==" && l.Atom.L == dec && l.Atom.R == "nil" {
+					decoded = l.Val
+				}
+				if l.Val && strings.Contains(l.Atom.L, "ErrNotExist") {
+					notExist = true
+				}
+			}
+			// a wrapped error is nil exactly when its cause is: `return nil, errors.Wrap(err, …)` behind err == nil
+			ret1 := p.Ret[1]
+			if inner := unwrapErrAP(ret1); inner != ret1 {
+				for _, l := range p.Lits {
+					if l.Val && l.Atom.Op == "==" && l.Atom.L == inner && l.Atom.R == "nil" {
+						ret1 = "nil"
+					}
+				}
+			}
+			switch {
+			case decoded:
+				nDec++
+				if ret1 != "nil" || p.Ret[0] == "nil" {
+					okDec = false
+					decDetail = "after a successful decode it returns (" + p.Ret[0] + ", " + p.Ret[1] + ")"
+				} else if decArgs != p.Ret[0] && !strings.HasSuffix(decArgs, ","+p.Ret[0]) {
+					// what is returned is the object the decoder filled
+					okDec = false
+					decDetail = "after a successful decode into (" + decArgs + ") it returns " + p.Ret[0] + ", not the decoded object"
+				}
+			case ret1 == "nil" && !notExist:
+				okDec = false
+				decDetail = "it returns a nil error without a successful decode (path " + p.LitString() + ")"
+			}
+		}
+		r.Check(okDec && nDec > 0, "load.decode-result", FuncName(load)+": returns what it decoded", w.Pos(load.Pos()),
+			"(data, nil) exactly behind the err == nil edge of Decode; an error otherwise (a missing file aside)", FuncName(load)+" does not return the decoded snapshot exactly when decoding succeeded: "+decDetail+" — a restart loads nothing (or fails) although the snapshot is intact")
 		r.Count("paths", len(res.Paths))
 		r.Check(found, "load.not-exist", FuncName(load)+": missing file", w.Pos(load.Pos()),
 			"the not-exist path returns a fresh empty state and a nil error", "no path maps a missing file to (empty state, nil): a never-saved store does not load")
 	}
 	r.Floor("protocol", 7)
 	r.Floor("who-may-write", 4)
-	r.Floor("load", 3)
+	r.Floor("load", 4)
 }
 
 // maybeNilError: can the error value returned here be nil? It cannot when the return is
@@ -875,4 +924,43 @@ func c09NameUseOnPaths(w *World, fn *ssa.Function, name string, storeFuncs []*ss
 	}
 	sort.Strings(out)
 	return strings.Join(out, "+")
+}
+
+// unwrapErrAP strips the error wrappers (errors.Wrap/Wrapf/WithStack/WithMessage) from a rendered access
+// path and returns the access path of the wrapped cause.
+func unwrapErrAP(s string) string {
+	for {
+		i := strings.Index(s, "(")
+		if i < 0 || !strings.HasSuffix(s, ")") {
+			return s
+		}
+		name := s[:i]
+		if !(strings.HasSuffix(name, "errors.Wrap") || strings.HasSuffix(name, "errors.Wrapf") || strings.HasSuffix(name, "errors.WithStack") || strings.HasSuffix(name, "errors.WithMessage") || strings.HasSuffix(name, "errors.WithMessagef")) {
+			return s
+		}
+		depth, end := 0, -1
+		inStr := false
+		for k := i + 1; k < len(s)-1 && end < 0; k++ {
+			switch c := s[k]; {
+			case inStr:
+				if c == '\\' {
+					k++
+				} else if c == '"' {
+					inStr = false
+				}
+			case c == '"':
+				inStr = true
+			case c == '(' || c == '[':
+				depth++
+			case c == ')' || c == ']':
+				depth--
+			case c == ',' && depth == 0:
+				end = k
+			}
+		}
+		if end < 0 {
+			end = len(s) - 1
+		}
+		s = s[i+1 : end]
+	}
 }
